@@ -34,6 +34,9 @@ UNITS = {
     "ext_units2": ("ext:EU2", [("x", 1), ("y", 1), ("units", 1), ("units_", 1), ("units__", 1)], []),
     "ext_inner2": ("ext:EN2", [("x", 1), ("y", 1), ("inner", 1), ("inner_", 1)], []),
     "modbundle": ("mod:UB", [("a", 1), ("b", 1)], [("bp", "B1")]),
+    # transistor-like devices whose ports are NOT listed drain, gate, source, bulk (as Sky130's five-terminal nfet_20v0_iso: g d s b sub)
+    "mos5": ("ext:M5", [("g", 1), ("d", 1), ("s", 1), ("b", 1), ("sub", 1)], []),
+    "mos4r": ("ext:M4R", [("s", 1), ("b", 1), ("g", 1), ("d", 1)], []),
 }
 
 
@@ -134,7 +137,8 @@ def run(tier, seed, replay_file=None):
                             continue
                         cases.append({"kind": "series", "unit": uname, "a": a, "b": b, "n": n, "by": by})
         for n in range(1, N + 1):
-            cases.append({"kind": "mosstack", "unit": "mos", "a": "d", "b": "s", "n": n})
+            for u in ("mos", "mos5", "mos4r"):
+                cases.append({"kind": "mosstack", "unit": u, "a": "d", "b": "s", "n": n})
     evs = pool_map(run_case, list(enumerate(cases)), chunksize=8)
     files = tlc.split_batches([[e] for e in evs], WORK / "c19", f"tr-{tier}", NPROC)
     res = tlc.validate_batches("trace/Trace_Builtins.tla", "trace/Trace_Builtins.cfg", files, jobs=NPROC, tag="c19val")
